@@ -115,17 +115,61 @@ Definition dummy_entry : entry := {| e_leaf := dummy_leaf; e_start := 0; e_end :
 Definition time_groups (start : nat -> Z) (ps : list nat) : list (list nat) :=
   map (fun s => filter (fun p => start p =? s) ps) (unique_in_order Z.eqb (map start ps)).
 
+(* binary64 arithmetic on the few numbers that decide the visiting order and the grouping of SpaceSharedOperations.divide.
+   A value is a dyadic m * 2^e; every operation computes the exact dyadic result and rounds it to 53 significant bits, ties
+   to even (no overflow / subnormals in this range).  The bottom edges of two gates with the same lowest row are equal as
+   rationals but can differ in the last bit as computed, and that decides which gate is shifted left. *)
+Definition dy := (Z * Z)%type.
+Definition dy_rnd (d : dy) : dy :=
+  let '(m, e) := d in
+  if m =? 0 then (0, 0) else
+  let k := Z.log2 (Z.abs m) + 1 - 53 in
+  if k <=? 0 then (m, e) else
+  let q := Z.abs m / 2 ^ k in
+  let r := Z.abs m mod 2 ^ k in
+  let half := 2 ^ (k - 1) in
+  let q' := if (r >? half) || ((r =? half) && Z.odd q) then q + 1 else q in
+  (Z.sgn m * q', e + k).
+Definition dy_add (a b : dy) : dy :=
+  let e := Z.min (snd a) (snd b) in (fst a * 2 ^ (snd a - e) + fst b * 2 ^ (snd b - e), e).
+Definition dy_neg (a : dy) : dy := (- fst a, snd a).
+Definition dy_leb (a b : dy) : bool :=
+  let e := Z.min (snd a) (snd b) in fst a * 2 ^ (snd a - e) <=? fst b * 2 ^ (snd b - e).
+Definition fl_add (a b : dy) : dy := dy_rnd (dy_add a b).
+Definition fl_mul (a b : dy) : dy := dy_rnd (fst a * fst b, snd a + snd b).
+(* the binary64 literal nearest to n/d (n, d > 0): 200 extra bits and a sticky bit *)
+Definition fl_of_rat (n d : Z) : dy :=
+  let q := (n * 2 ^ 200) / d in
+  let r := (n * 2 ^ 200) mod d in
+  dy_rnd (2 * q + (if r =? 0 then 0 else 1), -201).
+Definition dy_min (a b : dy) : dy := if dy_leb a b then a else b.
+Definition dy_max (a b : dy) : dy := if dy_leb a b then b else a.
+
+Definition f_height : dy := (draw_channel_height, -3).                                   (* channel_height = 1.0 *)
+Definition f_spacing : dy := fl_mul f_height (fl_of_rat draw_spacing_num draw_spacing_den).   (* channel_height * 1.2 *)
+Definition f_half_height : dy := fl_mul (1, -1) f_height.
+(* y = -1 * index * channel_spacing ((-1 * index) is an int) *)
+Definition f_row_y (row : Z) : dy := fl_mul (- row, 0) f_spacing.
+(* bottom and top edge (bot_pivot.y, top_pivot.y) of combine_transforms of the two single-row transforms of a gate *)
+Definition f_edges (r0 r1 : Z) : dy * dy :=
+  let so := fun r => fl_add (f_row_y r) (dy_neg f_half_height) in       (* origin_pivot.y of a MID_LEFT transform *)
+  let st := fun r => fl_add (f_row_y r) f_half_height in                 (* origin_opposite_pivot.y *)
+  let oy := dy_min (so r0) (so r1) in
+  let opp := dy_max (st r0) (st r1) in
+  let H := fl_add opp (dy_neg oy) in
+  let hH := fl_mul (1, -1) H in
+  let center := fl_add oy hH in                                          (* BOT_LEFT: pivot.y + 0.5 * height *)
+  (fl_add center (dy_neg hH), fl_add center hH).
+
 (* stable insertion sort by increasing key (sorted(..., key=...)) *)
-Fixpoint key_insert (key : nat -> Z) (x : nat) (l : list nat) : list nat :=
-  match l with [] => [x] | y :: t => if key x <=? key y then x :: l else y :: key_insert key x t end.
-Fixpoint key_sort (key : nat -> Z) (l : list nat) : list nat :=
+Fixpoint key_insert (key : nat -> dy) (x : nat) (l : list nat) : list nat :=
+  match l with [] => [x] | y :: t => if dy_leb (key x) (key y) then x :: l else y :: key_insert key x t end.
+Fixpoint key_sort (key : nat -> dy) (l : list nat) : list nat :=
   match l with [] => [] | x :: t => key_insert key x (key_sort key t) end.
 
-(* SpaceSharedOperations.divide.  A two-qubit gate covers the rows between its two qubits; bottom edge
-   y = -maxrow*spacing - height/2, top edge y = -minrow*spacing + height/2.  Gates are visited by increasing bottom edge
-   (= decreasing maxrow); a gate joins the LAST group whose recorded upper bound is not below its bottom edge
-   (<=> recorded minrow <= its maxrow, rows being integers and spacing > height), and the group's upper bound is REPLACED
-   by the gate's own top edge; otherwise it opens a new group.  (As coded: no break in the search loop, no max.) *)
+(* SpaceSharedOperations.divide.  Gates are visited by increasing bottom edge; a gate joins the LAST group whose recorded
+   upper bound is not below its bottom edge, and the group's upper bound is REPLACED by the gate's own top edge; otherwise it
+   opens a new group.  (As coded: no break in the search loop, no max.) *)
 Fixpoint last_match_from {A} (f : A -> bool) (l : list A) (i : nat) (best : option nat) : option nat :=
   match l with [] => best | x :: t => last_match_from f t (S i) (if f x then Some i else best) end.
 Fixpoint update_nth {A} (i : nat) (f : A -> A) (l : list A) : list A :=
@@ -134,13 +178,13 @@ Fixpoint update_nth {A} (i : nat) (f : A -> A) (l : list A) : list A :=
   | x :: t, O => f x :: t
   | x :: t, S j => x :: update_nth j f t
   end.
-Definition space_step (minrow maxrow : nat -> Z) (st : list (list nat * Z)) (p : nat) : list (list nat * Z) :=
-  match last_match_from (fun g : list nat * Z => snd g <=? maxrow p) st 0 None with
-  | Some gi => update_nth gi (fun g => (fst g ++ [p], minrow p)) st
-  | None => st ++ [([p], minrow p)]
+Definition space_step (bot top : nat -> dy) (st : list (list nat * dy)) (p : nat) : list (list nat * dy) :=
+  match last_match_from (fun g : list nat * dy => dy_leb (bot p) (snd g)) st 0 None with
+  | Some gi => update_nth gi (fun g => (fst g ++ [p], top p)) st
+  | None => st ++ [([p], top p)]
   end.
-Definition space_groups (minrow maxrow : nat -> Z) (ps : list nat) : list (list nat) :=
-  map fst (fold_left (space_step minrow maxrow) (key_sort (fun p => - maxrow p) ps) []).
+Definition space_groups (bot top : nat -> dy) (ps : list nat) : list (list nat) :=
+  map fst (fold_left (space_step bot top) (key_sort bot ps) []).
 
 (* (operation, element_index, group_size) for every member of every group *)
 Fixpoint with_index_from (j : nat) (n : nat) (g : list nat) : list (nat * (Z * Z)) :=
@@ -157,9 +201,9 @@ Definition two_qubit_slots (idx : list Z) (L : list entry) : list (nat * (Z * Z)
   let ps := filter (fun p => is_two_qubit (l_cls (e_leaf (at_ p)))) (seq 0 (List.length L)) in
   let r0 := fun p => Z.of_nat (row_of (nth 0 (l_qubits (e_leaf (at_ p))) 0) idx) in
   let r1 := fun p => Z.of_nat (row_of (nth 1 (l_qubits (e_leaf (at_ p))) 0) idx) in
-  let minrow := fun p => Z.min (r0 p) (r1 p) in
-  let maxrow := fun p => Z.max (r0 p) (r1 p) in
-  flat_map (fun tg => group_slots (space_groups minrow maxrow tg)) (time_groups (fun p => e_start (at_ p)) ps).
+  let bot := fun p => fst (f_edges (r0 p) (r1 p)) in
+  let top := fun p => snd (f_edges (r0 p) (r1 p)) in
+  flat_map (fun tg => group_slots (space_groups bot top tg)) (time_groups (fun p => e_start (at_ p)) ps).
 
 (* pivot x of a grouped gate: element j of a group of n (n > 1) is shifted by
    bounded_offset * 1/2 * scalar * duration^power  (time units), bounded_offset = 2 * j / (n - 1) - 1;
